@@ -551,7 +551,7 @@ Proof.
   assert (P553 : step_post root s s (mkR [553] PNone [])).
   { split; auto. split; [apply same_outside_refl|constructor]. }
   assert (CWD : forall p s0 r0, do_cwd s p = Some (s0, r0) -> step_post root s s0 r0).
-  { intros p s0 r0 E. unfold do_cwd in E. destruct FS_CHANGEDIR_RECURSES; [discriminate|].
+  { intros p s0 r0 E. unfold do_cwd in E.
     destruct Hs as (Hr & Hc). destruct (s_h s) as [hr hc] eqn:Eh. cbn [h_root h_cwd] in *. subst hr.
     pose proof (change_dir_spec (s_fs s) root rs hc p Hroot Hc) as S.
     destruct (change_dir (s_fs s) (mkH root hc) p) as [h'| | |];
@@ -632,10 +632,66 @@ Qed.
 Lemma pwd_reports_cwd s : step s CPwd = Some (s, mkR [257] (PText (h_cwd (s_h s))) []).
 Proof. reflexivity. Qed.
 
-Lemma cwd_fatal s p : FS_CHANGEDIR_RECURSES = true -> p <> [] -> step s (CCwd p) = None /\ step s CCdup = None.
+(* no command ends the process: every step returns, every run reaches its end *)
+Lemma step_total s c : exists s' r, step s c = Some (s', r).
 Proof.
-  intros F Hp. cbn [step]. unfold need_param, do_cwd. rewrite F.
-  destruct p; [contradiction|]. auto.
+  assert (CWD : forall p, exists s' r, do_cwd s p = Some (s', r)).
+  { intros p. unfold do_cwd. destruct (change_dir (s_fs s) (s_h s) p); eauto. }
+  destruct c; cbn [step]; unfold need_param; eauto;
+    try (destruct p; eauto; fail).
+  - destruct p; eauto. destruct (os_mkdir (s_fs s) (rp_of s (n :: p))); eauto.
+  - destruct p; eauto. destruct (lookup (s_fs s) (rp_of s (n :: p))) as [[|c]|]; eauto.
+    destruct (os_remove (s_fs s) (rp_of s (n :: p))); eauto.
+  - destruct p; eauto. destruct (os_remove (s_fs s) (rp_of s (n :: p))); eauto.
+  - destruct p; eauto. destruct (os_rename (s_fs s) (rp_of s (s_rnfr s)) (rp_of s (n :: p))); eauto.
+  - destruct p; eauto. destruct (put_file (s_fs s) (rp_of s (n :: p)) data (s_append s)); eauto.
+  - destruct p; eauto. destruct (lookup (s_fs s) (rp_of s (n :: p))) as [[|c]|]; eauto.
+  - destruct p; eauto. destruct (lookup (s_fs s) (rp_of s (n :: p))); eauto.
+  - destruct p; eauto. destruct (lookup (s_fs s) (rp_of s (n :: p))) as [[|c]|]; eauto.
+Qed.
+
+Lemma run_not_fatal : forall cs s, snd (run s cs) = false.
+Proof.
+  induction cs as [|c cs IH]; intros s; cbn [run]; auto.
+  destruct (step_total s c) as (s1 & x & E). rewrite E.
+  specialize (IH s1). destruct (run s1 cs) as [[s2 xs] f]. exact IH.
+Qed.
+
+(* CWD / CDUP through the FTP step function: the session survives, the host file system is
+   not touched, the working directory stays rooted-clean; the reply is 250 exactly when the
+   target (inside the root) is a directory, and then the new working directory names it *)
+Definition cwd_arg (c : cmd) : option bytes :=
+  match c with CCwd (x :: p) => Some (x :: p) | CCdup => Some DOTDOT | _ => None end.
+
+Lemma ftp_cwd_spec root rs s c p :
+  clean_root root rs -> sess_ok root s -> cwd_arg c = Some p ->
+  exists s' code,
+    step s c = Some (s', mkR [code] PNone [rp_of s p]) /\
+    sess_ok root s' /\ s_fs s' = s_fs s /\ inside root (rp_of s p) /\
+    (code = 250 /\ is_dir (s_fs s) (rp_of s p) = true /\
+       (forall c', real_path root c' (h_cwd (s_h s')) = rp_of s p)
+     \/ code = 550 /\ is_dir (s_fs s) (rp_of s p) = false /\ s' = s).
+Proof.
+  intros Hroot Hs Hc.
+  assert (IN : inside root (rp_of s p)) by (apply (rp_of_inside root rs s p); auto).
+  assert (E : step s c = do_cwd s p).
+  { destruct c; try discriminate; cbn [cwd_arg] in Hc.
+    - destruct p0; [discriminate|]. inversion Hc; subst. reflexivity.
+    - inversion Hc; subst. reflexivity. }
+  rewrite E. unfold do_cwd.
+  destruct Hs as (Hr & Hcw). destruct s as [fs [hr hc] rn ap ps]. cbn [s_h s_fs h_root h_cwd] in *. subst hr.
+  pose proof (change_dir_spec fs root rs hc p Hroot Hcw) as S.
+  unfold rp_of in *. cbn [s_h s_fs h_root h_cwd] in *.
+  unfold change_dir in *. cbn [h_root h_cwd] in *.
+  destruct (lookup fs (real_path root hc p)) as [[|x]|] eqn:L.
+  - destruct (rel root (real_path root hc p)) as [r|]; [|contradiction].
+    destruct S as (S1 & S2 & S3 & S4).
+    eexists; exists 250. split; [reflexivity|]. cbn [s_h s_fs h_root h_cwd].
+    split; [split; auto|]. split; [reflexivity|]. split; [exact IN|]. left. repeat split; auto.
+  - eexists; exists 550. split; [reflexivity|]. cbn [s_h s_fs h_root h_cwd].
+    split; [split; auto|]. split; [reflexivity|]. split; [exact IN|]. right. unfold is_dir. rewrite L. auto.
+  - eexists; exists 550. split; [reflexivity|]. cbn [s_h s_fs h_root h_cwd].
+    split; [split; auto|]. split; [reflexivity|]. split; [exact IN|]. right. unfold is_dir. rewrite L. auto.
 Qed.
 
 Lemma init_sess_ok fs root : sess_ok root (init_sess fs root).
